@@ -453,8 +453,30 @@ pub mod comp {
         ensure!(rc_owned == rc, "{}::revcomp over owned bytes differs: {:?} vs {:?}", name, B(rc_owned.clone()), B(rc.clone()));
         let back = if c.rna { rna::revcomp(&rc) } else { dna::revcomp(&rc) };
         ensure!(back == s, "{}::revcomp twice does not restore {:?}: got {:?} (via {:?})", name, B(s.to_vec()), B(back.clone()), B(rc.clone()));
+        // the sequence as other legal double-ended iterators: exact hint (slice), no hint (filter), and a
+        // lower bound below the true length (a slice chained with a filtered slice) - size_hint is advisory
+        let cut = s.len() / 3;
+        let (h, t) = s.split_at(cut);
+        let flavours: [(&str, Vec<u8>); 3] = [
+            ("a filtered iterator (size_hint (0, Some(n)))", {
+                let it = s.iter().filter(|_| true);
+                if c.rna { rna::revcomp(it) } else { dna::revcomp(it) }
+            }),
+            ("a slice chained with a filtered slice (size_hint lower bound below the length)", {
+                let it = h.iter().chain(t.iter().filter(|_| true));
+                if c.rna { rna::revcomp(it) } else { dna::revcomp(it) }
+            }),
+            ("a filtered slice chained with a slice", {
+                let it = h.iter().filter(|_| true).chain(t.iter());
+                if c.rna { rna::revcomp(it) } else { dna::revcomp(it) }
+            }),
+        ];
+        for (what, got) in &flavours {
+            ensure!(*got == exp, "{}::revcomp of {:?} handed over as {} = {:?}, expected {:?}", name, B(s.to_vec()), what, B(got.clone()), B(exp.clone()));
+        }
         let changed = s.iter().filter(|&&b| expected(b, c.rna) != b).count();
         let mut pass = Pass::new(s.len() >= 2 && changed >= 1 && rc != s);
+        pass.add_if(cut >= 1 && s.len() - cut >= 1, "sequence as an iterator with a partial size_hint");
         pass.add_if(s.is_empty(), "empty sequence");
         pass.add_if(rc == s && !s.is_empty(), "reverse-complement palindrome");
         pass.add_if(s.iter().any(|b| b.is_ascii_lowercase() && expected(*b, c.rna) != *b), "lower-case nucleotides");
